@@ -84,14 +84,20 @@ CliPre == {<<>>, <<L("*", "EXISTS")>>, <<L("*", "CAPS")>>, <<L("*", "OKCAPS")>>}
 CliSuffix == {<<>>, <<L("*", "OKCAPS")>>, <<L("*", "CAPS")>>, <<L("*", "EXISTS")>>, <<L("*", "EXPUNGE")>>,
               <<L("X", "TAGGED")>>, <<L("*", "BYE")>>, <<L("*", "PREAUTH")>>,
               <<L("*", "CAPS"), L("*", "EXISTS")>>}
-CliCases == {[side |-> "client", lines |-> <<L("*", g)>> \o p \o <<L("T", "TOK")>> \o s] :
-                g \in Greetings, p \in CliPre, s \in CliSuffix}
+\* TOKC `<tag> OK [CAPABILITY <EvilCaps>] Begin TLS negotiation now`: the completion of STARTTLS is itself plaintext -
+\* what it says about capabilities is no more to be trusted than any other plaintext (RFC 3501 6.2.1, RFC 9051 6.2.1:
+\* the client MUST discard cached information about server capabilities once TLS has been started)
+Toks == {"TOK", "TOKC"}
+CliCases == {[side |-> "client", lines |-> <<L("*", g)>> \o p \o <<L("T", t)>> \o s] :
+                g \in Greetings, p \in CliPre, s \in CliSuffix, t \in Toks}
 CliCasesSmall == {[side |-> "client", lines |-> <<L("*", g)>> \o p \o <<L("T", "TOK")>> \o s] :
                 g \in Greetings, p \in {<<>>}, s \in CliSuffix}
              \cup {[side |-> "client", lines |-> <<L("*", "GOKC"), L("*", "EXISTS"), L("T", "TOK")>> \o s] :
                 s \in {<<>>, <<L("*", "EXISTS")>>}}
              \cup {[side |-> "client", lines |-> <<L("*", g), L("*", c), L("T", "TOK")>> \o s] :
                 g \in {"GOK", "GOKC"}, c \in {"CAPS", "OKCAPS"}, s \in {<<>>, <<L("*", "EXISTS")>>}}
+             \cup {[side |-> "client", lines |-> <<L("*", g), L("T", "TOKC")>> \o s] :
+                g \in {"GOK", "GOKC"}, s \in {<<>>, <<L("*", "EXISTS")>>}}
 
 AllCases == SrvCases \cup CliCases
 SmallCases == SrvCasesSmall \cup CliCasesSmall
@@ -130,7 +136,7 @@ CApply(c, li, k) ==
       [] k = "GPREAUTH" -> [c EXCEPT !.greet = "PREAUTH", !.cstate = "auth", !.caps = PlainCaps]
       [] OTHER          -> [c EXCEPT !.greet = "BYE", !.cstate = "logout", !.dead = TRUE]
   ELSE
-    CASE k = "TOK"                  -> [c EXCEPT !.upgraded = TRUE, !.caps = {}]   \* capabilities are forgotten
+    CASE k \in Toks                 -> [c EXCEPT !.upgraded = TRUE, !.caps = {}]   \* capabilities are forgotten
       [] k \in {"CAPS", "OKCAPS"}   -> [c EXCEPT !.caps = EvilCaps]
       [] k \in {"EXISTS", "EXPUNGE"} -> [c EXCEPT !.handler = Append(@, li)]
       [] OTHER                      -> c
@@ -251,7 +257,7 @@ Conservation == Len(sock) + Len(buf) + garbage + SumLen(parsed, 1) = SumLen([i \
 ParsedIsPrefix == \A i \in 1..Len(parsed) : parsed[i] = i
 OnlyHandshakeAfterSwitch ==
   layer = "tls" /\ ~Faulty =>
-     /\ Len(parsed) >= 1 /\ stream[parsed[Len(parsed)]].c \in {"STARTTLS", "TOK"}
+     /\ Len(parsed) >= 1 /\ stream[parsed[Len(parsed)]].c \in {"STARTTLS"} \cup Toks
      /\ SumLen([i \in 1..(Len(stream) - Len(parsed)) |-> Len(parsed) + i], 1) = Len(sock) + Len(buf) + garbage
 
 \* server: layer and ServerConn's tls are the same thing
@@ -274,7 +280,7 @@ BackendOnlyFromPlain == Len(scalls) > 0 => Len(parsed) > 0
 ClientTrustsOnlyTLS == side = "client" /\ cl.upgraded => cl.caps \in {{}, TLSCaps}
 \* ... unilateral data are delivered only for lines in front of the tagged OK ...
 HandlerOnlyBeforeSwitch ==
-  \A i \in 1..Len(cl.handler) : \E j \in (cl.handler[i] + 1)..Len(stream) : stream[j].c = "TOK"
+  \A i \in 1..Len(cl.handler) : \E j \in (cl.handler[i] + 1)..Len(stream) : stream[j].c \in Toks
 \* ... and a client is handed out only on an OK greeting, not authenticated.
 RefusesPreauth ==
   /\ MustRefuse => NewStartTLSResult # "client"
